@@ -138,4 +138,23 @@ example : (run exampleExt).accepted = true ∧
             "do g(ext9)", "let v1 = g(ext9)", "return v0"] := by
   constructor <;> decide +kernel
 
+/-- a rejected program: `g(true)` has an argument of the wrong type (the error is reported, the call
+still analyses to `u8`, so `x` is declared), `nope` is undeclared (the operand to its right is not
+analysed) -/
+def exampleRejected : Program :=
+  [.fn ⟨['g'], [(['a'], .prim .u8)], .prim .u8, [.ret (.mk (.var ['a']) none)]⟩,
+   .fn ⟨['m'], [], .prim .u8,
+      [.letB ⟨['x'], false, none, .mk (.call ['g'] [.mk (.lit (.bool true)) none]) none⟩,
+       .letB ⟨['y'], false, none, .mk (.var ['x']) (some (.plus, .mk (.ext 7 .u8) none))⟩,
+       .letB ⟨['z'], false, none, .mk (.var ['n', 'o', 'p', 'e']) (some (.plus, .mk (.ext 8 .u8) none))⟩,
+       .ret (.mk (.ext 9 .u8) none)]⟩]
+
+/-- non-vacuity of the every-program clause: the example is rejected (two errors), leaf 7 is
+evaluated although an earlier statement was in error, leaf 8 is skipped, leaf 9 is evaluated; the
+specification and the model's stack agree -/
+example : (run exampleRejected).errors.length = 2 ∧
+    exampleRejected.fnDecls.map (visFn exampleRejected.rglobals) = [[], [7, 9]] ∧
+    (run exampleRejected).roots.map (fun b => b.context.filterMap Instr.extTag) = [[], [7, 9]] := by
+  decide +kernel
+
 end SemVerif
